@@ -61,7 +61,9 @@ CLAIMED = {
          "card selected before is selected again, every contest's old observations are a prefix (in sample-number order) of its new ones, and the "
          "threshold filter keeps exactly the contest's first n_c cards; data extended => history extended (C05 obligations, proved). Bounded "
          "stand-in: two rounds with every pair of size vectors n <= n' on <= 4-5 cards, redraw and continue variants, p-values over rounds. "
-         "The continuation call was repaired (F15).", "continuation and multi-round p-values bounded", "§4.C10"),
+         "The continuation call was repaired (F15) and is now proved too: the loop-invariant script has a 'continued from earlier samples' variant "
+         "(symbolic list of earlier samples: they are kept in place, thresholds and per-contest cards are those of a fresh draw, new cards are the "
+         "taken cards not sampled before).", "multi-round p-values bounded", "§4.C10"),
  "C11": ("proof", "For symbolic n, N, u, t, parameters: history length n, every entry in [0,1] and not NaN, p in [0,1], p = min history (random order) "
          "or last entry, for alpha/betting (under the estimator/bet interface), Kaplan-Markov, Kaplan-Wald, Kaplan-Kolmogorov (padded regime), SPRT "
          "(inside regime); the constructor stores every argument (random_order included) and binds the requested test; known findings K1,K3,K4,K9 "
